@@ -144,6 +144,11 @@ func init() {
 		m.E.Assume("A-DROP", "event emission, logging and telemetry are dropped")
 		return IntLit(0)
 	}
+	invokeModels["evm.EmitTypedEvent"] = func(m *Machine, _ *Frame, _ *ssa.CallCommon, a []Val) Val {
+		m.E.Assume("A-DROP", "event emission, logging and telemetry are dropped")
+		return IntLit(0)
+	}
+	invokeModels["evm.EmitEvent"] = func(m *Machine, _ *Frame, _ *ssa.CallCommon, a []Val) Val { return &TupleV{} }
 	models["(*"+pkgSdk+".EventManager).EmitEvent"] = func(m *Machine, _ *Frame, _ *ssa.CallCommon, a []Val) Val { return &TupleV{} }
 	models["github.com/cosmos/cosmos-sdk/telemetry.ModuleMeasureSince"] = func(m *Machine, _ *Frame, _ *ssa.CallCommon, a []Val) Val { return &TupleV{} }
 
